@@ -35,6 +35,9 @@ func c02RuleAlphabet() []c02RuleVar {
 	}
 	// the signal is raised in a function that is evaluated as an element of a print list / an argument of a call
 	out = append(out, c02RuleVar{kind: "pat", signal: "next@arg"}, c02RuleVar{kind: "pat", signal: "exit@arg"}, c02RuleVar{kind: "ENDFILE", signal: "exit@arg"})
+	// next taken inside the block body of a match case that binds v, and a rule that reads the global v: the element is
+	// abandoned and nothing of the case stays behind
+	out = append(out, c02RuleVar{kind: "pat", signal: "next@match"}, c02RuleVar{kind: "pat", signal: "readv"})
 	out = append(out, c02RuleVar{kind: "pat", pattern: 3, noBody: true})
 	// a rule that changes the current root / element: roots selected by different selectors, and ENDFILE's view, must not leak into each other
 	out = append(out, c02RuleVar{kind: "pat", signal: "mutate"})
@@ -91,6 +94,10 @@ func c02Rule(v c02RuleVar, id int, withIndex bool) *Rule {
 			Else: &If{Cond: &IsExpr{V("$"), "array"}, Then: Blk(Ex(CallE(Mem(V("$"), "push"), S(fmt.Sprintf("r%d", id))))), Else: Blk(Ex(Asg("=", V("$"), Arr_(V("$"), S("replaced")))))}})
 	}
 	switch v.signal {
+	case "next@match":
+		body = append(body, Ex(Asg("=", V("t"), &MatchExpr{Subj: V("$"), Cases: []MatchCase{{Pats: []Expr{V("v")}, Block: Blk(Pr(S("in case"), V("v")), &Next{})}}})), Pr(S("never")))
+	case "readv":
+		body = append(body, Pr(S("v is unset:"), &IsExpr{V("v"), "unknown"}), Ex(Asg("=", V("w"), Bin("+", V("w"), N("1")))), Pr(S("w"), V("w")))
 	case "next@arg":
 		body = append(body, Pr(S("arg"), CallE(V("id"), CallE(V("nx")))), Pr(S("never")))
 	case "exit@arg":
@@ -109,7 +116,7 @@ func c02Rule(v c02RuleVar, id int, withIndex bool) *Rule {
 func c02Valid(seq []int, alpha []c02RuleVar) bool {
 	sig := 0
 	for i, k := range seq {
-		if alpha[k].signal != "" && alpha[k].signal != "mutate" {
+		if alpha[k].signal != "" && alpha[k].signal != "mutate" && alpha[k].signal != "readv" {
 			sig++
 		}
 		if alpha[k].noBody && i+1 < len(seq) {
@@ -266,7 +273,7 @@ func init() {
 	n := len(alpha)
 	fw.Register(addTok(tokFramesC02, &fw.Prop{
 		ID: "C02",
-		Rule: "rule sequences over 29 rule variants (BEGIN/END/BEGINFILE/ENDFILE with nothing, exit or next; pattern-less, true, false and $>1 pattern rules with nothing, next or exit; next / exit raised in a callee inside a print list or an array literal; a body-less pattern rule, a rule that mutates $), every body printing its rule number, $, $file (and $index when every root is an array); " +
+		Rule: "rule sequences over 31 rule variants (BEGIN/END/BEGINFILE/ENDFILE with nothing, exit or next; pattern-less, true, false and $>1 pattern rules with nothing, next or exit; next / exit raised in a callee inside a print list or an array literal; next inside the block body of a binding match case and a rule that reads the bound name as a global; a body-less pattern rule, a rule that mutates $), every body printing its rule number, $, $file (and $index when every root is an array); " +
 			"(A) all sequences of <= N rules on three rich configurations, (B) 16 fixed rich programs on all 915 configurations (0-2 files x 13 file contents incl. empty, two values and all root shapes x 5 selector lists), (C) all sequences of <= M rules on all configurations; " +
 			"oracle: the schedule model of DESIGN.md 3.13 (exact stdout, outcome and JSON output); a state is the order in which rule kinds fired; non-trivial = same",
 		Plan: func(t fw.Tier) int { return n*n + len(c02Configs()) },
